@@ -7,6 +7,7 @@ import (
 	"errors"
 	"time"
 
+	itelemetry "golang.org/x/telemetry/internal/telemetry"
 	"golang.org/x/telemetry/internal/vrt"
 	"golang.org/x/telemetry/internal/vrt/vcrash"
 	"golang.org/x/telemetry/internal/vrt/vexec"
@@ -195,4 +196,46 @@ func c16check(in *c16in, exited int) {
 		vrt.Assert(launches == 0, "an unexpected marker launches nothing")
 		vrt.Assert(exited == 1, "an unexpected marker stops the process")
 	}
+}
+
+// VC16_race: concurrent starters racing for the upload token. With no stale token
+// present, at most one of them acquires it, for every interleaving of their file-system
+// calls within the preemption bound; with the token absent exactly one does.
+func VC16_race() {
+	vos.Reset()
+	vrt.ResetThreads()
+	vos.Clock = time.Now // files created during the race carry the current time
+	telemetryDirForRace()
+	n := vrt.Param("starters", 2)
+	fresh := vrt.Bool()
+	if fresh {
+		nd := vos.AddFile(c16dir+"/local/upload.token", nil)
+		age := int64(vrt.U32() % 86400) // younger than the period
+		nd.MTime = time.Unix(vrt.NowSec-age, 0)
+	}
+	got := make([]bool, n)
+	for i := 0; i < n; i++ {
+		k := i
+		vrt.Go(func() { got[k] = acquireUploadToken() })
+	}
+	vrt.MaxPreempt = vrt.Param("preempt", 2)
+	vrt.RunThreads()
+	vrt.Assert(!vrt.Deadlock, "starters do not block each other")
+	acquired := 0
+	for _, g := range got {
+		if g {
+			acquired++
+		}
+	}
+	vrt.Assert(acquired <= 1, "with no stale token, racing starters acquire the upload token at most once between them")
+	if fresh {
+		vrt.Assert(acquired == 0, "a fresh token is not acquired again")
+	} else {
+		vrt.Assert(acquired == 1, "with no token, exactly one starter acquires it")
+	}
+}
+
+func telemetryDirForRace() {
+	itelemetry.Default = itelemetry.NewDir(c16dir)
+	vos.AddDir(c16dir + "/local")
 }
